@@ -96,6 +96,16 @@ Theorem C16_affine_zero_scale_bfloat16 : C16_affine_zero_statement 8 128 NumB16.
 Proof. exact (affine_zero_scale_finite 8 128 Hp8 Hpe8 ltac:(lia) ltac:(lia)). Qed.
 Print Assumptions C16_affine_zero_scale_bfloat16.
 
+(* the hypothesis "the grid qmax*s is representable" of the theorems above cannot be dropped, and the optimizer does
+   produce such scales: float16 x = 65504 (the largest finite number), s = x / 127 as AbsmaxOptimizer computes it
+   (515.78 rounded up to 516): the code is 127 and 127 * 516 overflows.  Same with qfloat8_e4m3fn, where the code of
+   127 is 128.  This is known finding F33, replayed on the implementation by the audit (class "dtypemax"). *)
+Example C16_unrepresentable_grid_refuted :
+  let x := f16_of_bits 31743 in let s := @n_div _ Num16 x (@n_of_Z _ Num16 127%Z) in
+  is_finite x = true /\ is_finite s = true /\
+  is_finite (@symdq _ Num16 qint8 x s) = false /\ is_finite (@symdq _ Num16 qfloat8_e4m3fn x s) = false.
+Proof. vm_compute. repeat split. Qed.
+
 (* regression witnesses, evaluated on the generated code: float8 with a zero scale no longer stores NaN *)
 Example C16_f8_zero_row_is_finite :
   (r <- src_sym_forward (F:=f16) (H:=Num16) (T [2] [f16_of_bits 0; f16_of_bits 0]) qfloat8_e4m3fn None (T [] [f16_of_bits 0]) ;;
